@@ -3,5 +3,5 @@
 EXTENDS ConstEval, Json
 
 PrintReplay ==
-    Done => PrintT(<<"REPLAY", ToJson([cls |-> c.cls, ty |-> c.ty, e |-> c.e, expect |-> sem])>>)
+    Done => PrintT(<<"REPLAY", ToJson([cls |-> c.cls, ty |-> c.ty, e |-> c.e, expect |-> sem, ce |-> ce.k])>>)
 =============================================================================
